@@ -109,6 +109,10 @@ pub struct Perturb {
     pub mmap_shift: u64,
     pub sink_pipe: bool,
     pub input_first: bool,
+    /// modification time given to the source file (seconds since the epoch); None = now
+    pub src_mtime: Option<i64>,
+    /// simulated host name
+    pub host: Option<String>,
     pub rd_rate: u32,
     pub wr_rate: u32,
     pub rd_fail_at: Option<(u64, i32)>,
@@ -129,6 +133,8 @@ impl Perturb {
             mmap_shift: 0,
             sink_pipe: false,
             input_first: true,
+            src_mtime: Some(1_600_000_000),
+            host: None,
             rd_rate: 0,
             wr_rate: 0,
             rd_fail_at: None,
@@ -151,6 +157,8 @@ impl Perturb {
             "mmap_shift": self.mmap_shift,
             "sink": if self.sink_pipe { "pipe" } else { "file" },
             "input_first": self.input_first,
+            "src_mtime": self.src_mtime,
+            "host": self.host,
             "rd_rate": self.rd_rate,
             "wr_rate": self.wr_rate,
             "rd_fail_at": self.rd_fail_at.map(|(k, e)| json!([k, e])),
@@ -180,6 +188,8 @@ impl Perturb {
         p.mmap_shift = v["mmap_shift"].as_u64()?;
         p.sink_pipe = v["sink"].as_str()? == "pipe";
         p.input_first = v["input_first"].as_bool()?;
+        p.src_mtime = v["src_mtime"].as_i64();
+        p.host = v["host"].as_str().map(String::from);
         p.rd_rate = v["rd_rate"].as_u64()? as u32;
         p.wr_rate = v["wr_rate"].as_u64()? as u32;
         let pair = |x: &Value| -> Option<(u64, i32)> { Some((x[0].as_u64()?, x[1].as_i64()? as i32)) };
@@ -323,6 +333,11 @@ pub fn run_proc(ctx: &Ctx, wd: &WorkerDir, job: &Job, text: &str, p: &Perturb, c
     let cwd = wd.cwd(p.cwd_b);
     let name = job.name(c);
     std::fs::write(cwd.join(&name), text).expect("write source");
+    if let Some(t) = p.src_mtime {
+        if let Ok(f) = std::fs::OpenOptions::new().write(true).open(cwd.join(&name)) {
+            let _ = f.set_modified(std::time::UNIX_EPOCH + std::time::Duration::from_secs(t.max(0) as u64));
+        }
+    }
     let plan_path = wd.root.join("plan");
     let log_path = wd.root.join("log");
     let _ = std::fs::remove_file(&log_path);
@@ -332,6 +347,9 @@ pub fn run_proc(ctx: &Ctx, wd: &WorkerDir, job: &Job, text: &str, p: &Perturb, c
         plan.push_str(&format!("clock=1\nclock_base={b}\nclock_step_ns={s}\nclock_jump_every={j}\n"));
     }
     plan.push_str(&format!("pid={}\nrd_rate={}\nwr_rate={}\n", p.pid, p.rd_rate, p.wr_rate));
+    if let Some(h) = &p.host {
+        plan.push_str(&format!("host={h}\n"));
+    }
     if let Some((k, e)) = p.rd_fail_at {
         plan.push_str(&format!("rd_fail_at={k}\nrd_errno={e}\n"));
     }
@@ -484,6 +502,12 @@ pub fn draw_perturb(rng: &mut Rng, backend: Backend, ref_out: &ProcOut) -> Pertu
     }
     p.sink_pipe = on(7);
     p.input_first = !on(8);
+    if on(11) {
+        p.src_mtime = Some(rng.range(0, 4_102_444_800) as i64);
+    }
+    if on(12) {
+        p.host = Some(rng.pick(&["build-01", "ci-runner-7f3a", "localhost", "x"]).to_string());
+    }
     // retryable I/O faults
     if on(9) {
         p.wr_rate = *rng.pick(&[16u32, 64, 128, 256]);
@@ -586,6 +610,8 @@ fn note_enabled(p: &Perturb, st: &mut RunStats) {
     bump(&mut st.enabled, "mmap_shift", (p.mmap_shift != 0) as u64);
     bump(&mut st.enabled, "sink_pipe", p.sink_pipe as u64);
     bump(&mut st.enabled, "input_last", (!p.input_first) as u64);
+    bump(&mut st.enabled, "source_mtime", (p.src_mtime != c.src_mtime) as u64);
+    bump(&mut st.enabled, "hostname", p.host.is_some() as u64);
     bump(&mut st.enabled, "short_or_eintr_write", (p.wr_rate > 0) as u64);
     bump(&mut st.enabled, "short_or_eintr_read", (p.rd_rate > 0) as u64);
     bump(&mut st.enabled, "hard_read_error", p.rd_fail_at.is_some() as u64);
@@ -603,7 +629,7 @@ fn note_enabled(p: &Perturb, st: &mut RunStats) {
 fn note_fired(log: &ShimLog, st: &mut RunStats) {
     for (k, n) in &log.counts {
         match k.as_str() {
-            "getrandom" | "clock" | "getpid" | "rd_short" | "rd_eintr" | "rd_hard" | "wr_short" | "wr_eintr" | "wr_hard" | "wr_crash" => bump(&mut st.fired, k, *n),
+            "getrandom" | "clock" | "getpid" | "hostname" | "rd_short" | "rd_eintr" | "rd_hard" | "wr_short" | "wr_eintr" | "wr_hard" | "wr_crash" => bump(&mut st.fired, k, *n),
             _ => {}
         }
     }
